@@ -238,7 +238,7 @@ fn b2n(b: bool) -> String { format!("[[{}]%N]", if b { 1 } else { 0 }) }
 fn sorted(mut v: Vec<Key>) -> Vec<Key> { v.sort(); v }
 
 /// Run one history on one cell. Returns nothing; failures go to the summary.
-fn history(cx: &mut Ctx, cell: &CellDef, ops: &[Op], force_coq: bool) {
+fn history(cx: &mut Ctx, cell: &CellDef, ops: &[Op], force_coq: bool, allow_coq: bool) {
     let name = cell.name;
     let kind = cell.kind;
     let cj = json!({"cell": name, "ops": ops.iter().map(|(o, k)| json!([o, k])).collect::<Vec<_>>()});
@@ -400,7 +400,7 @@ fn history(cx: &mut Ctx, cell: &CellDef, ops: &[Op], force_coq: bool) {
     let modelled = slot < 4 && cell.status != "S-only";
     // evaluating the model's 256-way DFS over several hundred nodes inside Coq is slow: keys beyond 100 bytes are oracle-only
     let short_enough = force_coq || ops.iter().all(|(_, k)| k.len() <= 100);
-    if modelled && coq_ok && short_enough && obs.len() == ops.len() && (force_coq || cx.used[slot] < cx.budget[slot]) {
+    if modelled && coq_ok && short_enough && obs.len() == ops.len() && (force_coq || (allow_coq && cx.used[slot] < cx.budget[slot])) {
         cx.used[slot] += 1;
         let ops_coq: Vec<String> = ops.iter().enumerate().map(|(i, (o, k))| format!("({}, {})", if unavailable.contains(&i) { 9 } else { *o }, coq_key(k))).collect();
         let term = format!("({}, [{}], [{}])", slot, ops_coq.join("; "), obs.join("; "));
@@ -533,6 +533,12 @@ fn enumerated(len: usize) -> Vec<Vec<Op>> {
     out
 }
 
+/// the modelled cells of one kind take turns in being replayed in Coq (round-robin over histories)
+fn coq_turn(cell: &CellDef, i: usize) -> bool {
+    let same: Vec<&CellDef> = CELLS.iter().filter(|d| d.kind == cell.kind && d.status != "S-only").collect();
+    !same.is_empty() && same[i % same.len()].name == cell.name
+}
+
 fn parse_ops(c: &Value) -> Vec<Op> {
     c["ops"].as_array().map(|a| a.iter().map(|o| {
         let code = o[0].as_u64().unwrap_or(2);
@@ -545,9 +551,9 @@ fn run_case(cx: &mut Ctx, c: &Value, force: bool) {
     let name = c["cell"].as_str().unwrap_or("");
     let ops = parse_ops(c);
     if name == "*" {
-        for cell in CELLS { history(cx, cell, &ops, force); }
+        for cell in CELLS { history(cx, cell, &ops, force, true); }
     } else if let Some(cell) = CELLS.iter().find(|d| d.name == name) {
-        history(cx, cell, &ops, force);
+        history(cx, cell, &ops, force, true);
     }
 }
 
@@ -561,7 +567,7 @@ pub fn run(args: &Args) {
     let mut cx = Ctx {
         sum: Summary::new("C05", "histories of insert/remove/contains/len/keys/keys_with_prefix/accepts+lookup/longest_prefix over a key pool built to share structure (the empty key, a stem and all its prefixes, siblings differing in the last byte, 0x00/0xFF extensions, random tails, 33..70-byte stems beyond the 32/64-byte path limits, 254..300-byte keys around the LOUDS length limit); after every mutation len and contains of every key of the history are compared with a BTreeSet, every history ends with a full dump; all histories of 1..3 mutations over {eps,a,ab,b,a\\0} enumerated on every cell; non-trivial = at least two mutations"),
         shards: CoqShards::new(HEADER, 150),
-        budget: if q { [700, 250, 250, 60] } else { [4000, 1500, 1500, 200] },
+        budget: if q { [800, 330, 330, 60] } else { [4000, 1500, 1500, 200] },
         used: [0; 4],
     };
     let mut rng = Rng::new(args.seed);
@@ -589,13 +595,14 @@ pub fn run(args: &Args) {
         for ops in enumerated(len) {
             for cell in CELLS {
                 if cell.name == "ParallelLoudsTrie" && len > 1 { continue; }
-                history(&mut cx, cell, &ops, false);
+                // the cells of one kind run the same code: replay each enumerated history in Coq once per kind
+                history(&mut cx, cell, &ops, false, coq_turn(cell, 0));
             }
             cx.sum.dist("enumerated_histories");
         }
     }
     // generated
-    let rounds = if q { 260 } else { 5000 };
+    let rounds = if q { 400 } else { 5000 };
     for i in 0..rounds {
         let long = i % 4 == 3;
         let ops = gen_history(&mut rng, long);
@@ -607,7 +614,7 @@ pub fn run(args: &Args) {
             if cell.name == "ParallelLoudsTrie" && (i % 8 != 0 || long) { continue; } // replicas are rebuilt on every insert: slow
             if cell.kind == Kind::Dawg && long { continue; }
             // same history on every cell; fresh history for the Patricia cells more often
-            history(&mut cx, cell, &ops, false);
+            history(&mut cx, cell, &ops, false, coq_turn(cell, i as usize));
         }
     }
     cx.sum.dist_max("coq_cases", cx.shards.len() as u64);
